@@ -244,6 +244,20 @@ def run(ctx):
                       case={"history": f[1] if len(f) > 1 else "", "programs": progs}, expected="same results as fresh VMs; probe ok; heap back to baseline; no frames left",
                       observed=verdict)
     ctx.obligations.append(common.Obligation("monitor:histories", "correspondence", not hist_fail, "%d histories, %d failed" % (len(hlines), len(hist_fail))))
+    # Lib/StackReset.v against the implementation: the flag read from vm/src/thread.rs says whether the values
+    # of a failed run are removed; the model then predicts growth (C06_repeated_failures_grow) or none
+    # (C06_repeated_failures_fixed); the `S <n>` histories observe which one happens.
+    try:
+        gen = open(os.path.join(common.COQ, "gen", "StackResetGen.v")).read()
+        truncates = "top_level_truncates_values : bool := true" in gen
+        s_lines = [l for l in hlines if "\tS " in l]
+        s_ok = bool(s_lines) and all(l.startswith("ok") for l in s_lines)
+        ctx.obligations.append(common.Obligation(
+            "correspondence:stack-reset", "correspondence", truncates == s_ok,
+            "model (flag from thread.rs): values of a failed run are %s; observed over %d stack-reuse histories: %s"
+            % ("removed" if truncates else "left on the stack", len(s_lines), "no growth" if s_ok else "growth until StackOverflow")))
+    except OSError:
+        pass
 
     # coverage / evidence
     ctx.coverage["evaluations"] = stats["evaluations"]
